@@ -1,10 +1,14 @@
 #!/bin/bash
 # seedtest.sh <patch.diff> <check-id>... : apply a seeded change to /repo, run the checks (quick), undo.
+# Evidence files and replays written while the seeded change is applied are discarded: the committed
+# evidence only ever describes runs against /repo as it is.
 patch=$(readlink -f "$1"); shift
 cd /verif
 git -C /repo diff --quiet || { echo "/repo dirty"; exit 2; }
 git -C /repo apply "$patch" || { echo "patch does not apply"; exit 2; }
-trap 'git -C /repo checkout -- . ; git -C /repo clean -fdq' EXIT
+keep=$(mktemp -d /dev/shm/seedtest.XXXX)
+cp -a evidence "$keep/evidence"; ls replays > "$keep/replays.lst"
+trap 'git -C /repo checkout -- . ; git -C /repo clean -fdq; rm -rf /verif/evidence; cp -a "$keep/evidence" /verif/evidence; for f in $(ls /verif/replays); do grep -qx "$f" "$keep/replays.lst" || rm -f "/verif/replays/$f"; done; rm -rf "$keep"' EXIT
 for c in "$@"; do
   timeout -s KILL 900 ./run.sh $c ${TIER:-quick} > .work/seed-$c.log 2>&1; rc=$?
   echo "== $c exit=$rc $(grep -c '^VIOLATION' .work/seed-$c.log) violation lines"
